@@ -91,8 +91,8 @@ def wrap(ci, inner):
         return None
     if name in ('em_', 'strong_') and (inner.md[0] == '_' or inner.md[-1] == '_'):
         return None
-    if name == 'del' and (inner.md[0] == '~' or inner.md[-1] == '~'):
-        return None
+    if name == 'del' and '~~' in inner.md:
+        return None        # strikethrough inside strikethrough: GFM leaves the nesting of equal tilde runs open
     if name in ('link', 'reflink') and inner.link:
         return None
     if name == 'image':
